@@ -2,12 +2,12 @@ package main
 
 import (
 	"bytes"
-	"regexp"
 	"encoding/json"
 	"fmt"
 	"math/rand"
 	"os"
 	"path/filepath"
+	"regexp"
 	"strings"
 	"sync"
 	"time"
